@@ -527,6 +527,54 @@ func runC20Extra(c *Ctx) {
 			}
 		}
 	}
+	// strings are written as they are: the text of tv.String() reaches the builder through concatenation only.
+	// The property's strings need no escapes, so any rewriting of the text (an SQL-style escaper turns ' into \',
+	// which no JSON parser accepts; a quoting helper quotes twice) makes valid input come out malformed.
+	for _, fn := range []*ssa.Function{hd, kv} {
+		nStr := 0
+		for _, b := range fn.Blocks {
+			for _, ins := range b.Instrs {
+				call, ok := ins.(*ssa.Call)
+				if !ok || calleeName(&call.Call) != "(reflect.Value).String" {
+					continue
+				}
+				nStr++
+				c.Sites++
+				var bad []string
+				seen := map[ssa.Value]bool{}
+				var follow func(v ssa.Value)
+				follow = func(v ssa.Value) {
+					if seen[v] {
+						return
+					}
+					seen[v] = true
+					for _, r := range refs(v) {
+						switch x := r.(type) {
+						case *ssa.BinOp:
+							if x.Op == token.ADD {
+								follow(x)
+							}
+						case *ssa.Phi:
+							follow(x)
+						case *ssa.Call:
+							nm := calleeName(&x.Call)
+							switch {
+							case strings.HasPrefix(nm, "(*strings.Builder).Write"), strings.HasPrefix(nm, "(*bytes.Buffer).Write"), nm == "builtin.len", nm == "builtin.append":
+							default:
+								bad = append(bad, "the string's text is passed through "+nm+" at "+p.Pos(x.Pos())+" before it is written")
+							}
+						case *ssa.Convert:
+							follow(x)
+						case *ssa.Slice:
+							bad = append(bad, "the string's text is cut at "+p.Pos(r.Pos())+" before it is written")
+						}
+					}
+				}
+				follow(call)
+				c.Check(len(bad) == 0, "C20-SCALAR", fnName(fn), fmt.Sprintf("String#%d", nStr), call.Pos(), "the string's own text is written between the quotes", strings.Join(uniqStrings(bad), "; "))
+			}
+		}
+	}
 	// ---- EXPORT
 	runExportPred(c, "C20-EXPORT")
 	// the dumper decides "emit this field" by that predicate on the field's Name
